@@ -4,7 +4,7 @@
 # If the patch no longer applies to /repo's HEAD (a fix: commit touched the same lines) it is
 # applied to a scratch worktree of the pinned base commit instead, analysed there
 # (VERIF_REPO), and the worktree is removed.
-patch="$1"; shift
+patch="$(realpath "$1")"; shift
 BASE=a8cb25f
 cd /repo || exit 2
 if git apply --check "$patch" 2>/dev/null; then
